@@ -579,10 +579,10 @@ fn execute_write_count(db: &core::Db, cypher: &str, params: &Params) -> ApiResul
         ));
     }
     let prepared = prepare(cypher).map_err(|e| ApiError::from_query_message(&e.to_string()))?;
-    let snapshot = db.snapshot();
+    let mut txn = db.begin_write();
     #[cfg(nervusdb_verif)]
     core::verif_sched::point("capi.autocommit.between");
-    let mut txn = db.begin_write();
+    let snapshot = db.snapshot();
     let (_rows, write_count) = prepared
         .execute_mixed(&snapshot, &mut txn, params)
         .map_err(|e| ApiError::from_query_message(&e.to_string()))?;
